@@ -60,8 +60,10 @@ static void prop(Ctx &c) {
     for (int op : ops) c.desc << (op == 0 ? "validate_checksums " : op == 1 ? "find_valid_chunks " : "validate_data_checksum ");
     c.desc << "then read(" << gen::sizes_str(rs) << ")" << (validate_after ? " then validate again" : "");
 
-    // ---- reference expectation
-    std::vector<int> expect(n, -1); bool all_good = true; size_t intact = 0, damaged = 0; bool cut_inside = false;
+    // ---- reference expectation (recomputed when the file is changed between two scans)
+    std::vector<int> expect(n, -1); bool all_good = true; size_t intact = 0, damaged = 0; bool cut_inside = false; bool data_ok = true; int expect_ret = -1;
+    auto compute_expect = [&]() {
+    expect.assign(n, -1); all_good = true; intact = 0; damaged = 0; cut_inside = false;
     for (size_t i = 0; i < n; i++) {
         size_t off = z.off(i), cl = z.clen(i);
         if (i == 0 && h.entries[0].len == 0 && cl == 0) { expect[i] = 1; continue; }
@@ -71,12 +73,14 @@ static void prop(Ctx &c) {
         expect[i] = ok ? 1 : -1; if (ok) intact++; else { damaged++; all_good = false; }
         if (detached) break;
     }
-    bool data_ok = true; bool complete = h.total_size + (size_t)h.data_length <= T.size();
+    data_ok = true; bool complete = h.total_size + (size_t)h.data_length <= T.size();
     if (!(h.flags & 4) && !detached) data_ok = complete && ref::digest((int)h.hash_type, T.data() + h.total_size, (size_t)h.data_length) == h.data_digest;
-    int expect_ret = -1;
+    expect_ret = -1;
     if (detached) { all_good = expect[0] == 1; expect_ret = all_good ? 1 : -1; }
     else if (h.flags & 4) expect_ret = all_good ? 1 : -1;
     else if (all_good) { expect_ret = data_ok ? 1 : -1; if (!data_ok) for (auto &e : expect) e = -1; }
+    };
+    compute_expect();
     if ((intact && damaged) || cut_inside) c.nontrivial();
     c.label(detached ? "detached" : "full"); if (cut_inside) c.label("cut-inside-chunk"); if (intact && damaged) c.label("mixed-intact-damaged"); if (expect_ret == 1) c.label("all-valid");
     if (bad_data_digest && all_good) c.label("only-data-digest-wrong");
@@ -107,7 +111,18 @@ static void prop(Ctx &c) {
         }
         if (lib::fd_bytes(fd) != T) { fsig = "file-modified"; fmsg = std::string(name) + " modified the file"; }
     };
+    // flags the context already carries when the scan starts must not matter: chunks paired with an intact copy by
+    // zck_find_matching_chunks() are marked valid without a look at the target's bytes - the scan decides from the bytes
+    if (c.gver >= 4 && !detached && c.rarely(4)) { int sfd = lib::mkfd(z.file); zckCtx *src = zck_create(); if (zck_init_read(src, sfd)) { (void)!zck_find_matching_chunks(src, ctx); c.label("flags-preset-by-matching"); } zck_free(&src); close(sfd); if (zck_is_error(ctx)) (void)!zck_clear_error(ctx); }
     for (int op : ops) { run_op(op, "before the read"); if (!fsig.empty()) break; }
+    // the file changes between two scans on the same context (another chunk is damaged in place): the second scan reports the new state
+    if (c.gver >= 4 && fsig.empty() && !detached && c.rarely(3)) {
+        std::vector<size_t> ok_chunks; for (size_t i = 0; i < n; i++) if (z.clen(i) && z.off(i) + z.clen(i) <= T.size() && ref::digest((int)h.chunk_hash_type, T.data() + z.off(i), z.clen(i)) == h.entries[i].digest) ok_chunks.push_back(i);
+        if (!ok_chunks.empty()) { size_t i = ok_chunks[c.pick(ok_chunks.size())]; size_t pos = z.off(i) + c.pick(z.clen(i)); T[pos] ^= (uint8_t)(1u << c.draw(7)); if (pwrite(fd, &T[pos], 1, pos) != 1) abort();
+            compute_expect(); base = lib::read_file(T, rs, (size_t)64 << 20); if (zck_is_error(ctx)) (void)!zck_clear_error(ctx);
+            c.label("damaged-between-scans"); c.desc << " ; chunk " << i << " damaged in place, then another scan";
+            run_op(c.boolean() ? 0 : 1, "after the file was changed"); }
+    }
     // a validation that fails leaves an error message on the context; a caller that goes on to read clears it first.
     // Only when that is impossible (fatal state) is the content delivered before a failing read not comparable.
     bool sticky = false; if (fsig.empty() && zck_is_error(ctx)) { sticky = !zck_clear_error(ctx); c.label(sticky ? "fatal-error-after-validation" : "error-cleared-before-read"); }
